@@ -3,8 +3,10 @@ package c11
 import (
 	"encoding/json"
 	"fmt"
+	"runtime"
 	"strings"
 	"sync"
+	"sync/atomic"
 	"testing"
 	"time"
 
@@ -350,6 +352,28 @@ func TestExtraReplay(t *testing.T) {
 		}
 		return
 	}
+	if raw := vlib.ReplayCase("C11/shared"); raw != nil {
+		var c sharedCase
+		if err := json.Unmarshal(raw, &c); err != nil {
+			t.Fatal(err)
+		}
+		if key, msg := runShared(c); key != "" {
+			t.Fatalf("[key=%s] %s", key, msg)
+		}
+		return
+	}
+	if raw := vlib.ReplayCase("C11/yieldIO"); raw != nil {
+		var c yieldIOCase
+		if err := json.Unmarshal(raw, &c); err != nil {
+			t.Fatal(err)
+		}
+		for i := 0; i < 20; i++ {
+			if key, msg, _ := runYieldIO(c); key != "" {
+				t.Fatalf("[key=%s] %s", key, msg)
+			}
+		}
+		return
+	}
 	t.Skip("no replay case")
 }
 
@@ -584,11 +608,21 @@ func TestSharedPrefix(t *testing.T) {
 	}
 	vlib.Check(t, "shared-prefix", 3000, 30000, func(t *rapid.T) {
 		var c sharedCase
-		n := rapid.IntRange(1, 5).Draw(t, "derived")
+		n := rapid.IntRange(1, 12).Draw(t, "derived")
 		for i := 0; i < n; i++ {
-			c.Derive = append(c.Derive, rapid.IntRange(0, i).Draw(t, "from"))
+			// mostly extend the newest one (deep prefixes), otherwise branch off an earlier one
+			if rapid.IntRange(0, 2).Draw(t, "extend") > 0 {
+				c.Derive = append(c.Derive, i)
+			} else {
+				c.Derive = append(c.Derive, rapid.IntRange(0, i).Draw(t, "from"))
+			}
 		}
 		c.Evals = rapid.SliceOfN(rapid.IntRange(0, n), 1, 8).Draw(t, "evals")
+		if rapid.Bool().Draw(t, "evalAll") {
+			for i := 0; i <= n; i++ {
+				c.Evals = append(c.Evals, i)
+			}
+		}
 		c.Pre = rapid.Bool().Draw(t, "pre")
 		vlib.S().Eval("shared-prefix")
 		fan := map[int]int{}
@@ -606,6 +640,219 @@ func TestSharedPrefix(t *testing.T) {
 		}
 		if key, msg := runShared(c); key != "" {
 			vlib.WriteReplay("C11/shared", c)
+			if vlib.Fail(t, key, "%+v: %s", c, msg) {
+				t.Skip("known")
+			}
+		}
+	})
+}
+
+// Bounded-exhaustive shapes of the same part: a prefix chain of every depth 0..12, two or three
+// sibling compositions built on it (optionally each extended once more), all evaluated in both orders.
+func TestSharedPrefixTemplates(t *testing.T) {
+	if vlib.Replaying() {
+		t.Skip()
+	}
+	n := 0
+	for depth := 0; depth <= 12; depth++ {
+		for siblings := 2; siblings <= 3; siblings++ {
+			for extend := 0; extend <= 1; extend++ {
+				for order := 0; order <= 1; order++ {
+					for pre := 0; pre <= 1; pre++ {
+						var c sharedCase
+						for i := 0; i < depth; i++ {
+							c.Derive = append(c.Derive, i)
+						}
+						var leaves []int
+						for k := 0; k < siblings; k++ {
+							c.Derive = append(c.Derive, depth)
+							leaves = append(leaves, len(c.Derive))
+							if extend == 1 {
+								c.Derive = append(c.Derive, len(c.Derive))
+								leaves = append(leaves, len(c.Derive))
+							}
+						}
+						if order == 1 {
+							for i, j := 0, len(leaves)-1; i < j; i, j = i+1, j-1 {
+								leaves[i], leaves[j] = leaves[j], leaves[i]
+							}
+						}
+						c.Evals = append(append([]int{}, leaves...), depth)
+						c.Evals = append(c.Evals, leaves...)
+						c.Pre = pre == 1
+						vlib.S().Eval("shared-prefix-templates")
+						vlib.S().NonTrivial("shared-prefix-templates", fmt.Sprintf("%+v", c))
+						n++
+						if key, msg := runShared(c); key != "" {
+							vlib.WriteReplay("C11/shared", c)
+							if !vlib.Fail(t, key, "%+v: %s", c, msg) {
+								return
+							}
+						}
+					}
+				}
+			}
+		}
+	}
+	_ = n
+	vlib.S().Exhaustive("shared-prefix-templates")
+}
+
+// ---------------------------------------------------------------------------
+// Part "fresh-handlers": "with ObserveOn(h1)/SubscribeOn(h2) the effect runs on h1's goroutine and
+// OnNext on h2's" - a Handler has ONE goroutine, whoever uses it first. Several goroutines subscribe
+// at the same moment to MonadIOs configured with the same, never used handlers (no probe runs on
+// them first); afterwards a few subscriptions are made sequentially. All effects must have run on
+// one goroutine, all OnNext calls on one (other) goroutine, never two at once, each exactly once.
+// ---------------------------------------------------------------------------
+
+type freshCase struct {
+	Starters int  `json:"starters"`
+	Probes   int  `json:"probes"`
+	Cap1     int  `json:"cap1"`
+	Cap2     int  `json:"cap2"`
+	SubOn    bool `json:"subOn"`
+}
+
+func runFresh(c freshCase) (key, msg string, inconclusive bool) {
+	h1, h2 := newHandler(c.Cap1), newHandler(c.Cap2)
+	defer h1.Close()
+	defer h2.Close()
+	var mu sync.Mutex
+	effG, nextG := map[uint64]int{}, map[uint64]int{}
+	var inEff, inNext, overlapEff, overlapNext int32
+	total := c.Starters + c.Probes
+	done := make(chan struct{}, total)
+	mk := func() *fpgo.MonadIODef[int] {
+		m := fpgo.MonadIONewGenerics(func() int {
+			if atomic.AddInt32(&inEff, 1) > 1 {
+				atomic.StoreInt32(&overlapEff, 1)
+			}
+			g := vlib.GoID()
+			runtime.Gosched()
+			mu.Lock()
+			effG[g]++
+			mu.Unlock()
+			atomic.AddInt32(&inEff, -1)
+			return 1
+		}).ObserveOn(h1)
+		if c.SubOn {
+			m.SubscribeOn(h2)
+		}
+		return m
+	}
+	sub := func(m *fpgo.MonadIODef[int]) {
+		m.Subscribe(fpgo.Subscription[int]{OnNext: func(int) {
+			if atomic.AddInt32(&inNext, 1) > 1 {
+				atomic.StoreInt32(&overlapNext, 1)
+			}
+			g := vlib.GoID()
+			mu.Lock()
+			nextG[g]++
+			mu.Unlock()
+			atomic.AddInt32(&inNext, -1)
+			done <- struct{}{}
+		}})
+	}
+	wait := func(n int) bool {
+		tm := time.After(vlib.StallBudget())
+		for i := 0; i < n; i++ {
+			select {
+			case <-done:
+			case <-tm:
+				return false
+			}
+		}
+		return true
+	}
+	var ready, goFlag int32
+	for i := 0; i < c.Starters; i++ {
+		m := mk()
+		go func() {
+			atomic.AddInt32(&ready, 1)
+			for atomic.LoadInt32(&goFlag) == 0 {
+			}
+			sub(m)
+		}()
+	}
+	for atomic.LoadInt32(&ready) < int32(c.Starters) {
+		runtime.Gosched()
+	}
+	atomic.StoreInt32(&goFlag, 1)
+	if !wait(c.Starters) {
+		return "", "", true
+	}
+	for i := 0; i < c.Probes; i++ {
+		sub(mk())
+		if !wait(1) {
+			return "", "", true
+		}
+	}
+	mu.Lock()
+	defer mu.Unlock()
+	ne, nn := 0, 0
+	for _, k := range effG {
+		ne += k
+	}
+	for _, k := range nextG {
+		nn += k
+	}
+	if ne != total || nn != total {
+		return "C11/fresh-handlers/count", fmt.Sprintf("%d subscriptions: %d effect runs, %d OnNext calls", total, ne, nn), false
+	}
+	if len(effG) != 1 {
+		return "C11/fresh-handlers/effect-goroutine", fmt.Sprintf("effects observed on ObserveOn(h1) ran on %d different goroutines %v: a handler has one goroutine", len(effG), effG), false
+	}
+	if c.SubOn && len(nextG) != 1 {
+		return "C11/fresh-handlers/onnext-goroutine", fmt.Sprintf("OnNext with SubscribeOn(h2) ran on %d different goroutines %v", len(nextG), nextG), false
+	}
+	if c.SubOn {
+		for g := range nextG {
+			if effG[g] != 0 {
+				return "C11/fresh-handlers/onnext-goroutine", "OnNext with SubscribeOn(h2) ran on h1's goroutine", false
+			}
+		}
+	}
+	if atomic.LoadInt32(&overlapEff) == 1 || (c.SubOn && atomic.LoadInt32(&overlapNext) == 1) {
+		return "C11/fresh-handlers/overlap", "two effects (or two OnNext calls) posted to one handler ran at the same time", false
+	}
+	return "", "", false
+}
+
+func TestFreshHandlers(t *testing.T) {
+	if vlib.Replaying() {
+		if raw := vlib.ReplayCase("C11/fresh"); raw != nil {
+			var c freshCase
+			if err := json.Unmarshal(raw, &c); err != nil {
+				t.Fatal(err)
+			}
+			for i := 0; i < 2000; i++ {
+				if key, msg, _ := runFresh(c); key != "" {
+					t.Fatalf("[key=%s] %s", key, msg)
+				}
+			}
+		}
+		return
+	}
+	vlib.Check(t, "fresh-handlers", 1500, 15000, func(t *rapid.T) {
+		c := freshCase{
+			Starters: rapid.IntRange(1, 6).Draw(t, "starters"),
+			Probes:   rapid.IntRange(0, 4).Draw(t, "probes"),
+			Cap1:     rapid.IntRange(0, 3).Draw(t, "cap1"),
+			Cap2:     rapid.IntRange(0, 3).Draw(t, "cap2"),
+			SubOn:    rapid.Bool().Draw(t, "subOn"),
+		}
+		vlib.S().Eval("fresh-handlers")
+		if c.Starters >= 2 {
+			vlib.S().NonTrivial("fresh-handlers", fmt.Sprintf("%+v", c))
+		}
+		key, msg, inc := runFresh(c)
+		if inc {
+			vlib.S().Class("fresh-handlers/inconclusive")
+			return
+		}
+		if key != "" {
+			vlib.WriteReplay("C11/fresh", c)
 			if vlib.Fail(t, key, "%+v: %s", c, msg) {
 				t.Skip("known")
 			}
